@@ -16,6 +16,10 @@ TESTS = {
     'nf_mprime_format': dict(fns=['sign_internal', 'verify_internal', 'hash_message', 'try_sign_with_rng', 'try_hash_sign_with_rng', 'verify', 'hash_verify'],
                              props=['C06', 'C05', 'C03', 'C02', 'C07', 'C01'],
                              bound='3 parameter sets x |ctx| in {0,1,2,17,254,255} x {pure, SHA-256, SHA-512, SHAKE128}: public entry points vs Sign/Verify_internal on the oracle-formatted M-prime (differential, one key and message)'),
+    'nf_f1_vector': dict(fns=['inv_ntt', 'ntt', 'mat_vec_mul', 'verify_internal', 'verify', 'partial_reduce32', 'mont_reduce'], props=['C18', 'C13', 'C02'],
+                         bound='one adversarial (public key, signature) pair for ML-DSA-87 (finding F1): verify returns false without panicking'),
+    'nf_sk_total': dict(fns=['expand_private', 'sk_decode', 'sk_encode', 'try_from_bytes', 'into_bytes', 'inv_ntt', 'ntt'], props=['C09', 'C10', 'C13'],
+                        bound='5 structured accepted private-key byte strings per parameter set (generated, arbitrary t0, zero t0 bytes, all s = +eta, all s = -eta): re-serialised identically'),
     'nf_sk_fields': dict(fns=['sk_decode', 'expand_private', 'try_from_bytes', 'bit_unpack', 'is_in_range'], props=['C10', 'C13'],
                          bound='every s1/s2 field position x every field value, on one honestly generated key per parameter set'),
 }
@@ -29,6 +33,9 @@ def run_native(repo, vdir, scratch, tests, timeout=1200):
         with open(os.path.join(d, 'src', 'lib.rs'), 'a') as fh:
             fh.write('\n#[cfg(test)] mod verif_native;\n')
         shutil.copy(os.path.join(vdir, 'kani', 'native_fallback.rs'), os.path.join(d, 'src', 'verif_native.rs'))
+        f1 = json.load(open(os.path.join(vdir, 'findings', 'F1', 'f1_vector.json')))
+        with open(os.path.join(d, 'src', 'verif_native_f1.rs'), 'w') as fh:
+            fh.write('pub(super) const PK_HEX: &str = "%s";\npub(super) const SIG_HEX: &str = "%s";\npub(super) const MSG_HEX: &str = "%s";\n' % (f1['pk_hex'], f1['sig_hex'], f1['message_hex']))
     env = dict(os.environ, CARGO_NET_OFFLINE='true', RUSTFLAGS='--cap-lints=warn', CARGO_TARGET_DIR=os.path.join(scratch, 'native_target'))
     res = {}
     try:
